@@ -54,17 +54,14 @@ def own_name_guard(eng: Engine, fn: FuncInfo, node: ast.AST) -> bool:
     return c.find_path([c.entry], lambda n: n in targets, avoid=is_guard) is None
 
 
-def run(eng: Engine, ck: Check):
-    repo = eng.repo
-    dn = eng.cls(DN, DIST)
-    smc = eng.cls('SearchManager', SEARCH)
-
-    # ---- R-C14-FANOUT
+def fanout_rules(eng: Engine, ck: Check, rule: str):
+    """send_messages_to_children delivers every message to every CURRENT child: shared by C14 (searches flow down exactly once) and
+    C13 (every child is told the current position)."""
     stc = eng.func(DIST, f'{DN}.send_messages_to_children')
     ck.visited(stc)
     loops = [n for n in walk_local(stc.node) if isinstance(n, (ast.For, ast.AsyncFor))]
     ok = len(loops) == 1 and chain_str(loops[0].iter) == 'self.children'
-    ck.ob('R-C14-FANOUT', stc, stc.node, 'send_messages_to_children iterates exactly self.children, once', ok,
+    ck.ob(rule, stc, stc.node, 'send_messages_to_children iterates exactly self.children, once', ok,
           f'iterates {[unparse(l.iter) for l in loops]}', construct='fan-out iterable')
     if loops:
         lp = loops[0]
@@ -72,18 +69,30 @@ def run(eng: Engine, ck: Check):
         qs = [c for st in lp.body for c in calls_in(st) if call_name(c) in ('queue_messages', 'queue_message', 'send_message')]
         ok = len(qs) == 1 and unparse(qs[0].func.value) == f'{tv}.connection' and not eng.guards_at(stc, qs[0]) and \
             any(isinstance(a, ast.Starred) and unparse(a.value) == stc.params[-1] for a in qs[0].args)
-        ck.ob('R-C14-FANOUT', stc, lp, 'each child gets all messages, queued once on its own connection, unconditionally', ok,
+        ck.ob(rule, stc, lp, 'each child gets all messages, queued once on its own connection, unconditionally', ok,
               f'{[unparse(q) for q in qs]}', construct='fan-out body')
         other = [c for c in calls_in(stc.node) if call_name(c) in ('queue_messages', 'queue_message', 'send_message', 'send_peer_messages',
                                                                  'send_server_messages') and c not in qs]
-        ck.ob('R-C14-FANOUT', stc, stc.node, 'nothing else is sent from send_messages_to_children', not other, f'{[unparse(o)[:50] for o in other]}',
+        ck.ob(rule, stc, stc.node, 'nothing else is sent from send_messages_to_children', not other, f'{[unparse(o)[:50] for o in other]}',
               construct='fan-out no other target')
     for lp in loops:
         aw = [n for st in lp.body for n in walk_local(st) if isinstance(n, (ast.Await, ast.AsyncWith, ast.AsyncFor))]
         live = chain_str(lp.iter) == 'self.children'
-        ck.ob('R-C14-FANOUT', stc, lp, 'the loop over the live child list does not suspend (a child that closes during an awaited send is removed from the list '
+        ck.ob(rule, stc, lp, 'the loop over the live child list does not suspend (a child that closes during an awaited send is removed from the list '
               'under the loop, and the next child is skipped)', not (aw and live),
               f'await at line {aw[0].lineno} inside `for .. in self.children`' if aw else '', construct='fan-out loop atomic')
+
+
+def run(eng: Engine, ck: Check):
+    repo = eng.repo
+    dn = eng.cls(DN, DIST)
+    smc = eng.cls('SearchManager', SEARCH)
+
+    # ---- R-C14-FANOUT
+    fanout_rules(eng, ck, 'R-C14-FANOUT')
+    n_pi = per_instance_state_rule(eng, ck, 'R-C14-FANOUT', [eng.cls('PeerConnection', CONN), dn],
+                                   'the search request queued for one child must not be visible to (or cancelled by the close of) any other connection')
+    ck.floor('R-C14-FANOUT.per-instance', n_pi, 2)
     fwd = handlers_for(eng, dn)
     ck.floor('R-C14-FANOUT.handlers', len(fwd), 3)
     for h, carrier in fwd:
